@@ -229,6 +229,28 @@ pub fn run_batch<C: Case>(cfg: &BatchCfg, known: &[Known<C>]) -> BatchResult<C> 
                     let (r, out) = one_run(&scn, run_seed, strategy.clone());
                     done.fetch_add(1, Ordering::Relaxed);
 
+                    // Code that spins without ever reaching a scheduling point
+                    // trips the wall-clock watchdog. Once is a harness matter
+                    // (an overloaded machine); twice in a row on the same
+                    // scenario and schedule is non-termination of the code
+                    // under test.
+                    if matches!(r.failure, Some(Failure::Watchdog)) {
+                        let (r2, _) = one_run(&scn, run_seed, strategy.clone());
+                        if matches!(r2.failure, Some(Failure::Watchdog)) {
+                            found.lock().unwrap().push(Found {
+                                run_index: i,
+                                run_seed,
+                                deviations: Vec::new(),
+                                choices: r2.choices(),
+                                scn,
+                                strategy,
+                                violations: vec![non_termination()],
+                                runs_before: i,
+                            });
+                            stop.store(true, Ordering::Relaxed);
+                            break;
+                        }
+                    }
                     if let Some(f) = &r.failure {
                         if f.is_harness_error() {
                             *harness_err.lock().unwrap() = Some(format!(
@@ -346,6 +368,13 @@ pub fn run_batch<C: Case>(cfg: &BatchCfg, known: &[Known<C>]) -> BatchResult<C> 
     }
 }
 
+pub fn non_termination() -> Violation {
+    Violation::new(
+        "non_termination",
+        "the simulated code kept running without reaching any scheduling point until the wall-clock watchdog fired, twice in a row on the same scenario and schedule (spinning / unbounded loop)",
+    )
+}
+
 // ---------------------------------------------------------------------------
 // Minimisation
 // ---------------------------------------------------------------------------
@@ -378,6 +407,17 @@ fn first_of_class<C: Case>(
 /// every candidate) and then the schedule (delta-debugging the deviations
 /// from run-to-block), keeping the violation class fixed.
 pub fn minimise<C: Case>(prop: Prop, f: &Found<C>, budget: Duration) -> Minimised<C> {
+    if f.violations[0].class == "non_termination" {
+        // Every replay costs a full watchdog period: reported as found.
+        return Minimised {
+            scn: f.scn.clone(),
+            strategy: StrategySpec::Recorded { choices: f.choices.clone() },
+            violation: f.violations[0].clone(),
+            from_decisions: f.choices.len(),
+            scenario_steps: 0,
+            replays: 0,
+        };
+    }
     let start = Instant::now();
     let class = f.violations[0].class.clone();
     let mut replays = 0u64;
@@ -579,6 +619,16 @@ pub fn replay_case<C: Case>(prop: Prop, v: &Value) -> Result<ReplayOutcome, Stri
         message: v["violation"]["message"].as_str().unwrap_or("").to_string(),
     };
     let (r, out) = one_run(&scn, seed, strategy);
+    if expected.class == "non_termination" {
+        let again = matches!(r.failure, Some(Failure::Watchdog));
+        return Ok(ReplayOutcome {
+            reproduced: again,
+            expected,
+            got: if again { vec![non_termination()] } else { Vec::new() },
+            harness_error: None,
+            hash: 0,
+        });
+    }
     let harness_error = match &r.failure {
         Some(f) if f.is_harness_error() => Some(format!("{f:?}")),
         _ => None,
